@@ -914,7 +914,7 @@ func (d *driver) verify(in vInput) (string, bool) {
 
 // ---------------------------------------------------------------- generators
 
-var cleanPaths = []string{"foo", "bar", "sub/foo", "sub/bar", "sub/dir/foo", "lib/x.c", "a", "sub/dir/bar"}
+var cleanPaths = []string{"foo", "bar", "sub/foo", "sub/bar", "sub/dir/foo", "lib/x.c", "a", "sub/dir/bar", "src/main.c", "mod.pyc", "build7", "sub/util.h"}
 var uncleanPaths = []string{"./foo", "sub//foo", "sub/./foo", "sub/../foo", "foo/", "/foo", "../foo", "", ".", "sub/dir/../foo", "sub/dir/", "a/..", "./sub/bar"}
 var hashPool = []hashObj{{"sha256": "aa"}, {"sha256": "bb"}, {"sha256": "aa", "sha512": "cc"}, {"sha512": "cc"}, {}, {"sha256": "aa", "sha512": "dd"}}
 var cleanPatterns = []string{"*", "foo", "bar", "sub/*", "sub/???", "*/foo", "*.c", "[fb]oo", "sub/dir/*", "?", "s*", "sub/[a-f]oo", "[^f]*", "lib/x.c", "sub/dir/bar", "*o", "\\f\\o\\o", "???"}
@@ -974,6 +974,14 @@ func genArts(r *lib.Rng, cfg genCfg) arts {
 func pickPattern(r *lib.Rng, cfg genCfg, known []string) string {
 	if cfg.unclean && r.Chance(1, 6) {
 		return r.Pick(oddPatterns)
+	}
+	if len(known) > 0 && r.Chance(1, 6) {
+		if p, ok := starTailFor(r, r.Pick(known)); ok {
+			return p
+		}
+	}
+	if r.Chance(1, 10) {
+		return starTails[r.Intn(len(starTails))].Pat
 	}
 	if len(known) > 0 && r.Chance(1, 2) {
 		k := r.Pick(known)
@@ -1802,6 +1810,20 @@ func runStream(drv string, n int, out string) {
 			rp.Nontrivial++
 		}
 	}
+	// 4a. star followed by a class/escape chunk that must match at the very end of the name, in every rule form
+	stIns, stKl := allStarTailCases(r.Fork())
+	for i, in := range stIns {
+		k, orc, _ := classify(in, stKl[i])
+		impl := observe(runVerify, in)
+		model := noModel
+		if d != nil {
+			model = observe(func(x vInput) string { v, _ := d.verify(x); return v }, in)
+		}
+		rp.Distribution[k]++
+		ii := in
+		rp.add(k, anyCase{Kind: "Vq", V: &ii}, impl, model, orc)
+		rp.Nontrivial++
+	}
 	// 4b. VerifyArtifacts on every keyword/token variant: artifacts the intended rule would reject or consume
 	for _, v := range variants {
 		in, base := kwVariantCase(v, r.Fork())
@@ -1839,6 +1861,13 @@ func main() {
 			var in vInput
 			var base string
 			switch {
+			case i >= 16 && i < 27 || i%10 == 5:
+				// every rule form once at the start (pattern rotating), then a walk through all pattern x form pairs
+				k := i/10*7 + 3
+				if i >= 16 && i < 27 {
+					k = i - 16
+				}
+				in, base = starTailCase(starTails[(k/len(starTailForms)+k)%len(starTails)], starTailForms[k%len(starTailForms)], r.Fork())
 			case i >= 8 && i < 16 || i%10 == 6:
 				in, base = genTargeted3(r.Fork(), i)
 			case i < 8 || i%10 == 9:
